@@ -691,6 +691,15 @@ class Engine:
                         return [(s, self.class_const(s, modname, f"{c}.{attr}", exc))]
             owner = field_owner(ty.cls, attr)
             if owner is None:
+                # dynamic dispatch: the member is defined by the subclasses only - one path per subclass that has it
+                subs = [c for c in subclasses(ty.cls) if c != ty.cls and find_contract(c, attr) is not None and not [d for d in subclasses(c) if d != c]]
+                if subs:
+                    out = []
+                    for c in subs:
+                        for s2, side in self.fork(s, class_map(s)[recv.z] == CLASSES[c]["id"], line):
+                            if side:
+                                out.extend(self.get_attr(s2, Val(TRef(c), recv.z), attr, exc, line))
+                    return out
                 raise OutOfSubset(f"attribute {ty.cls}.{attr} at L{line}")
             _, m, fty = field_map(s, ty.cls, attr)
             v = unpack(fty, z3.simplify(m[recv.z]))
@@ -2742,4 +2751,7 @@ CLASS_MODULES = {
     "FastaStream": ["tola.fasta.stream"],
     "AssemblyStats": ["tola.assembly.assembly_stats"],
     "ChrNamer": ["tola.assembly.build_utils"],
+    "OverhangPremise": ["tola.assembly.build_utils"],
+    "StartOverhangPremise": ["tola.assembly.build_utils"],
+    "EndOverhangPremise": ["tola.assembly.build_utils"],
 }
